@@ -171,11 +171,19 @@ func allInputsFor(role string, k chidTok, from int) []nStep {
 	resps := []msgSpec{respOf(mtNew, tid, true, false), respOf(mtNew, tid, false, false), respOf(mtRestart, tid, true, false), respOf(mtCancel, tid, false, false),
 		respOf(mtUpdate, tid, false, false), respOf(mtUpdate, tid, false, true), respOf(mtComplete, tid, true, false), respOf(mtComplete, tid, true, true),
 		{Type: mtVoucherResult, Tid: tid, Accepted: true, VType: "R1", VNode: 4}}
+	// the transport hands over requests only for channels the remote peer initiated and responses only
+	// for channels self initiated (C16); the network path accepts anything from anybody
 	for _, m := range reqs {
-		out = append(out, sMReq(from, m, accept), sTReq(k, m, accept))
+		out = append(out, sMReq(from, m, accept))
+		if !roleInitiator(role) {
+			out = append(out, sTReq(k, m, accept))
+		}
 	}
 	for _, m := range resps {
-		out = append(out, sMResp(from, m), sTResp(k, m))
+		out = append(out, sMResp(from, m))
+		if roleInitiator(role) {
+			out = append(out, sTResp(k, m))
+		}
 	}
 	out = append(out, sRestartExisting(from, k))
 	return out
@@ -802,6 +810,20 @@ func runNodeAPI(dir string, seed uint64, tier string) {
 				{counterPause(), counterResume()}, {sK("pause", k), sK("pause", k), sK("resume", k), sK("resume", k)},
 				{sVoucher(k, 5)}, {fail1(sVoucher(k, 5))}, {sVoucher(k, 5), sVoucher(k, 6)}, {sResult(k, 6)}, {fail1(sResult(k, 6))}, {sResult(k, 6), sResult(k, 8)},
 				{sK("tcancelled", k), sK("close", k)}, {sCompleted(k, true)}, {sCompleted(k, true), sCompleted(k, true)}, {sCompleted(k, false), sCompleted(k, false)},
+			}
+			if roleInitiator(role) && (status == "Ongoing" || status == "Queued" || status == "AwaitingAcceptance") {
+				// pause, then the channel moves on while paused, then resume
+				for _, mv := range [][]nStep{{sMResp(other, respOf(mtComplete, k.Tid, true, false))}, {sMResp(other, respOf(mtComplete, k.Tid, true, true))},
+					{sCompleted(k, false)}, {sMResp(other, respOf(mtNew, k.Tid, true, false))}, {sK("tinitiated", k)}} {
+					q := append([]nStep{sK("pause", k)}, mv...)
+					seqs = append(seqs, append(q, sK("resume", k), counterResume()))
+				}
+			}
+			if !roleInitiator(role) && (status == "Ongoing" || status == "Queued") {
+				for _, mv := range [][]nStep{{sK("tinitiated", k)}, {sData(2, k, 5, 1, true)}, {sMReq(other, msgSpec{IsReq: true, Type: mtVoucher, Tid: k.Tid, VType: "T1", VNode: 5})}} {
+					q := append([]nStep{sK("pause", k)}, mv...)
+					seqs = append(seqs, append(q, sK("resume", k), counterResume()))
+				}
 			}
 			for _, q := range seqs {
 				steps := append(append([]nStep(nil), pre...), q...)
